@@ -141,6 +141,13 @@ static void check_routes(impl::Lexicon& lex, Rng& rng, std::uint64_t inst)
    // word -> linkage
    if (&lex.get_linkage(u8"C") != &L.c_linkage() || &lex.get_linkage(lex.get_string(u8"C")) != &L.c_linkage()) tviol("route:word->linkage:C", "get_linkage(\"C\") is not c_linkage()");
    if (&lex.get_linkage(u8"C++") != &L.cxx_linkage() || &lex.get_linkage(lex.get_string(u8"C++")) != &L.cxx_linkage()) tviol("route:word->linkage:C++", "get_linkage(\"C++\") is not cxx_linkage()");
+   {  // the same spellings carried by String nodes that this Lexicon did not intern: a free-standing node, another Lexicon's word
+      static constexpr impl::String free_c { u8"C" }, free_cxx { u8"C++" };
+      impl::Lexicon other;
+      if (&lex.get_linkage(free_c) != &L.c_linkage() || &lex.get_linkage(other.get_string(u8"C")) != &L.c_linkage()) tviol("route:foreign-word->linkage:C", "get_linkage(a String spelled \"C\" that this Lexicon did not intern) is not c_linkage()");
+      if (&lex.get_linkage(free_cxx) != &L.cxx_linkage() || &lex.get_linkage(other.get_string(u8"C++")) != &L.cxx_linkage()) tviol("route:foreign-word->linkage:C++", "get_linkage(a String spelled \"C++\" that this Lexicon did not intern) is not cxx_linkage()");
+      tcount("foreign_string_routes", 4);
+   }
    for (auto w : { u8"c", u8"C+", u8"C++ ", u8" C", u8"c++", u8"Java" }) {
       auto& l = lex.get_linkage(w);
       tcount("near_miss_routes_checked");
